@@ -247,3 +247,28 @@ func RunGuarded(c *tengo.Compiled) (err error, panicked bool, ptext string) {
 	}
 	return err, false, ""
 }
+
+// LiteObj is a small universe for secondary operands: int, float, 1-byte
+// string, undefined, bool, char, [int], {a: int}.
+func LiteObj(id string) tengo.Object { return LiteObjN(id, 8) }
+
+// LiteObjN restricts LiteObj to its first n shapes.
+func LiteObjN(id string, n int) tengo.Object {
+	switch vf.Choice(id+".lite", n) {
+	case 0:
+		return &tengo.Int{Value: vf.Int64(id + ".i")}
+	case 1:
+		return &tengo.String{Value: vf.String(id+".s", 1)}
+	case 2:
+		return tengo.UndefinedValue
+	case 3:
+		return Scalar(id, TBool)
+	case 4:
+		return &tengo.Array{Value: []tengo.Object{&tengo.Int{Value: vf.Int64(id + ".e")}}}
+	case 5:
+		return &tengo.Map{Value: map[string]tengo.Object{"a": &tengo.Int{Value: vf.Int64(id + ".e")}}}
+	case 6:
+		return &tengo.Float{Value: vf.Float64(id + ".f")}
+	}
+	return &tengo.Char{Value: vf.Rune(id + ".c")}
+}
